@@ -31,7 +31,8 @@ RULE = ('configurations: every signed format (1,iw,fw) with iw+fw <= 8 in same-f
         'mixed multiplier triples), every wire width computed independently, boundary x boundary + random operands; history class: ONE long-lived instance per '
         'configuration (same-format small/wide/huge formats with all five blocks, mixed multiplier triples) driven with operand sequences that return to earlier pairs -- A,A; A,(0,y),A; A,(x,0),A; '
         'A,(0,0),A; A,swap(A),A; A,pair sharing one operand,A; A,special value,A; A,B,A,B; zero,A,zero,A for every non-zero pair A of a small pool (0, +-1 lsb, most negative, +-one, 3 random) and a walk on the pool '
-        '-- judged by the same exact oracle (a stateless block answers the same whatever was applied before).  evaluations = block outputs judged.  Non-trivial: both operands non-zero; '
+        '-- judged by the same exact oracle (a stateless block answers the same whatever was applied before); optional-output class: the comparator built with every non-empty subset of {gt, eq, lt} connected and the others None '
+        '(subsets the constructor refuses are counted), for every format up to 5 bits (7 in thorough) and five wide formats, flag wires 1 and 3 bits, each connected output judged by the same oracle.  evaluations = block outputs judged.  Non-trivial: both operands non-zero; '
         'distinct by content (configuration, x, y); in the thorough tier only the cases whose content hash is 0 mod 16 are registered, so '
         'distinct_nontrivial is a lower bound there (keeps the merged set small)')
 SHARDS = {'quick': 1, 'thorough': 16}
@@ -529,6 +530,113 @@ def history_run(run, tier, seed, shard, stats, per_class, deadline):
     run.extra['history_step_classes'] = dict(returns)
 
 
+# --------------------------------------------------------------------------- optional-output workloads
+
+OPTIONAL_FLAGS = ('gt', 'eq', 'lt')
+
+
+def optional_output_run(run, tier, seed, shard, stats, per_class, deadline):
+    """Every fixed-point block whose constructor lets outputs be left unconnected (None) -- on this tree the comparator's gt / eq / lt -- is built in
+    EVERY non-empty subset of its optional outputs; a subset that the constructor refuses is counted (a refusal is not a wrong value), one that builds
+    is swept (exhaustive small formats, boundary x boundary + random + close operands for wide ones, plus an A,B,A history) and every CONNECTED output is judged by the same exact oracle."""
+    import py4hw
+    i, nsh = shard if shard else (0, 1)
+    subsets = [tuple(n for n, b in zip(OPTIONAL_FLAGS, bits) if b) for bits in itertools.product((1, 0), repeat=3) if any(bits)]
+    fmts = [f for f in small_formats(4 if tier == 'quick' else 6) if sum(f) >= 2] + [(1, 3, 4), (1, 7, 8), (1, 15, 16), (1, 31, 32), HUGE[0]]
+    built = Stats()
+    refused = Stats()
+    judged = Stats()
+    for k, (f, sub) in enumerate(itertools.product(fmts, subsets)):
+        if run.too_many:
+            break
+        if k % nsh != i:
+            continue
+        if time.time() > deadline:
+            run.inconclusive.append('watchdog hit before optional-output configuration %r %r' % (f, sub))
+            break
+        form = '+'.join(sub)
+        w = sum(f)
+        for fw in ((1, 3) if sum(f) <= 3 or f == (1, 7, 8) else (1,)):
+            hw = py4hw.HWSystem()
+            a, b = hw.wire('a', w), hw.wire('b', w)
+            outs = {n: hw.wire(n, fw) for n in sub}
+            try:
+                with muted():
+                    py4hw.FixedPointComparator(hw, 'cmp', a, f, b, f, *[outs.get(n) for n in OPTIONAL_FLAGS])
+                    sim = hw.getSimulator()
+            except Exception as e:
+                refused['connected=%s:%s' % (form, type(e).__name__)] += 1
+                continue
+            built['connected=' + form] += 1
+            rnd = rng(seed, 'C14', 'optional', f, sub, fw, shard)
+            mode = 'exhaustive' if w <= 5 else 'boundary'
+            pairs = list(operand_pairs(f, f, mode, 'quick', rnd))
+            if mode == 'boundary':
+                pairs = pairs[:: 3] + [(v, v) for v in bset(w, f[2], rnd, 4)]
+            pairs += [q for A in pairs[:: max(1, len(pairs) // 12)] for q in (A, (A[1], A[0]), A, (A[0], A[0]), A)]       # returns on the same instance
+            for x, y in pairs:
+                sx, sy = sgn(x, w), sgn(y, w)
+                if not -(1 << (w - 1)) <= sx - sy < (1 << (w - 1)):
+                    stats['cmp_difference_not_representable'] += 1
+                    continue
+                a.put(x)
+                b.put(y)
+                try:
+                    with muted():
+                        sim.propagateAll()
+                except Exception as e:
+                    run.violation('fxp_sim_raises', dict(config_class='same_format', relation='raises:' + type(e).__name__, workload='optional_outputs', connected=form),
+                                  dict(kind='optional', f=f, connected=list(sub), flag_width=fw, x=hex(x), y=hex(y)), observed=repr(e)[:200],
+                                  what='propagateAll raises for FixedPointComparator %r with only %s connected: %r' % (f, form, e))
+                    break
+                e3 = dict(gt=int(sx > sy), eq=int(sx == sy), lt=int(sx < sy))
+                exp = {n: e3[n] for n in sub}
+                got = {n: outs[n].get() for n in sub}
+                run.ev()
+                stats['cmp'] += 1
+                judged['connected=' + form] += 1
+                judged['operands_equal' if sx == sy else 'operands_differ'] += 1
+                if x and y:
+                    run.nt(hash(('optional', f, sub, fw, x >> 60, x & M60, y >> 60, y & M60)))
+                if got != exp:
+                    bad = [n for n in sub if got[n] != exp[n]]
+                    report(run, dict(kind='optional', f=f, connected=list(sub), flag_width=fw, x=hex(x), y=hex(y)),
+                           [V('fxp_cmp_optional_outputs', dict(block='FixedPointComparator', config_class='same_format', connected=form, wrong='+'.join(bad),
+                                                               operands='equal' if sx == sy else ('same_sign' if (sx < 0) == (sy < 0) else 'opposite_sign'),
+                                                               flag_wires='all_flags_1_bit' if fw == 1 else 'flag_wires_wider_than_1_bit'),
+                              exp, got, 'FixedPointComparator f=%r built with only %s connected (others None), a=%#x (%d) b=%#x (%d): expected %r observed %r' % (
+                                  f, form, x, sx, y, sy, exp, got))])
+                    if run.too_many:
+                        break
+    run.extra['optional_output_forms_built'] = dict(built)
+    run.extra['optional_output_forms_refused_by_constructor'] = dict(refused)
+    run.extra['optional_output_steps_judged'] = dict(judged)
+
+
+def replay_optional(c):
+    import py4hw
+    f = tuple(c['f'])
+    w = sum(f)
+    sub = tuple(c['connected'])
+    hw = py4hw.HWSystem()
+    a, b = hw.wire('a', w), hw.wire('b', w)
+    outs = {n: hw.wire(n, c.get('flag_width', 1)) for n in sub}
+    with muted():
+        py4hw.FixedPointComparator(hw, 'cmp', a, f, b, f, *[outs.get(n) for n in OPTIONAL_FLAGS])
+        sim = hw.getSimulator()
+    x, y = int(c['x'], 16), int(c['y'], 16)
+    a.put(x)
+    b.put(y)
+    with muted():
+        sim.propagateAll()
+    sx, sy = sgn(x, w), sgn(y, w)
+    e3 = dict(gt=int(sx > sy), eq=int(sx == sy), lt=int(sx < sy))
+    exp = {n: e3[n] for n in sub}
+    got = {n: outs[n].get() for n in sub}
+    print('replay optional outputs f=%r connected=%r a=%#x b=%#x -> expected %r observed %r' % (f, sub, x, y, exp, got))
+    return got != exp
+
+
 HISTORY_KEEP = 64     # pairs of operand history stored with a violation (the rig is replayed from a fresh build over them)
 
 
@@ -631,6 +739,7 @@ def run_check(run, tier, seed, shard):
         if cc == 'same_format' and flags == (1, 1, 1, 1):
             formats_done['%d.%d.%d' % af] += npairs
     history_run(run, tier, seed, shard, stats, per_class, deadline)
+    optional_output_run(run, tier, seed, shard, stats, per_class, deadline)
     run.extra['configurations'] = ncfg
     run.extra['per_config_class'] = dict(per_class)
     run.extra['judged_per_block'] = dict(stats)
@@ -656,6 +765,16 @@ def _floors(run, stats):
     for k in HISTORY_SHAPES:
         if not sh.get(k):
             run.inconclusive.append('history workload shape never exercised: %s' % k)
+    ob = run.extra.get('optional_output_forms_built', {})
+    oj = run.extra.get('optional_output_steps_judged', {})
+    if len(ob) < 2:
+        run.inconclusive.append('optional-output class: fewer than two constructor forms with unconnected outputs were built')
+    for k in ob:
+        if not oj.get(k):
+            run.inconclusive.append('optional-output form built but never judged: %s' % k)
+    for k in ('operands_equal', 'operands_differ'):
+        if not oj.get(k):
+            run.inconclusive.append('optional-output class never judged with %s' % k)
     hc = run.extra.get('history_step_classes', {})
     for k in ('step_returns_to_an_earlier_nonzero_pair', 'nonzero_pair_repeated_right_after_a_zero_operand', 'step_repeats_the_previous_pair',
               'step_shares_one_operand_with_the_previous_pair'):
@@ -665,6 +784,11 @@ def _floors(run, stats):
 
 def replay(run, case):
     c = case['case']
+    if c.get('kind') == 'optional':
+        bad = replay_optional(c)
+        if bad:
+            print('VIOLATION property=%s replay=%s' % (run.prop, 'replayed'))
+        return 1 if bad else 0
     af, bf, rf = tuple(c['af']), tuple(c['bf']), tuple(c['rf'])
     flags = tuple(c.get('flags', (1, 1, 1, 1)))
     if c.get('kind') == 'build':
